@@ -4,7 +4,10 @@
    misses) for every small configuration.
 2. The driver records what the real geometry classes answer for the whole scanner database and for
    generated scanners (coordinates in natural units, reported lines, round trips, detector-pair lines,
-   TOF bins, arc correction of recorded rows); TLC (Trace_Coordinates) must explain every line."""
+   TOF bins, arc correction of recorded rows), both for fresh objects and along RE-USE HISTORIES of the
+   same object (ProjDataInfo after reduce_segment_range / set_min,max_tangential_pos_num / set_num_views +
+   set_azimuthal_angle_offset / set_tof_mash_factor; one ArcCorrection object set up several times in a
+   row, also across scanners); TLC (Trace_Coordinates) must explain every line exactly as for a fresh object."""
 import os, json
 from . import lib
 
@@ -65,6 +68,9 @@ def run(ctx):
                     cid = (rec["name"], "arc-correction", rec["N"], rec["variant"], rec["t0"], rec["t1"], rec["o0"], rec["o1"])
                 nconf += 1
                 ctx.evaluations += 1
+                # re-use histories: the same object after range / view / TOF changes, or set up again
+                hk = "hist:" + (rec.get("hist", "fresh") if rec["e"] == "Config" else ("arc-reused" if rec.get("reuse", 0) > 0 else "arc-fresh"))
+                kinds[hk] = kinds.get(hk, 0) + 1
                 if nconf % 61 == 1:
                     ctx.sample({k: rec[k] for k in rec if k not in ("segs", "eb", "ebr", "es")})
             else:
@@ -102,7 +108,8 @@ def run(ctx):
             ctx.violation("%d recorded lines not explained by Coordinates.tla, first: %s" % (len(newbad), json.dumps(brief)[:240]), rp)
     # vacuity guard: every kind of observation the driver claims to record must be present
     if not ctx.replay:
-        missing = [k for k in ("Row", "RT0", "RT1", "RT2", "PL", "TB", "Arc0", "Arc1", "Arc2", "Arc3") if kinds.get(k, 0) == 0]
+        missing = [k for k in ("Row", "RT0", "RT1", "RT2", "PL", "TB", "Arc0", "Arc1", "Arc2", "Arc3",
+                                    "hist:fresh", "hist:ranges", "hist:views-tof", "hist:arc-fresh", "hist:arc-reused") if kinds.get(k, 0) == 0]
         if missing or nconf < 50:
             raise lib.ModelFailure("recorded trace lacks observations of kind %s (%d configurations)" % (missing, nconf))
     ctx.extra["configurations"] = nconf
@@ -113,6 +120,7 @@ def run(ctx):
         "agreement is decided in natural units with residual <= 1e-3 unit; quantities involving the chord length (tan theta, end points of the reported line, detector-pair lines) only for |s| <= 0.95 R",
         "arc-corrected bins whose line does not cross the detector ring (|s| >= R) have no line of response: nothing claimed",
         "Blocks/Generic: only the discrete clauses (round trip, monotone/antisymmetric s on the representation next to the view angle, opposite obliqueness) are decided; Generic scanners are the cylindrical lay-out handed over as a crystal map",
+        "stateful objects are exercised along re-use histories (recorded events carry the parameters of the CURRENT state); set_num_views is used the documented way, together with set_azimuthal_angle_offset (as SSRB does)",
         "templates inside the quantifier: complete segments (no C01-truncseg class), non-arc-corrected tangential range <= 0.8 N bins",
     ]
     return ctx.finish(rule="one evaluation = one bin of a recorded sinogram row (coordinates / reported line / round trip of that bin), one detector-pair line, "
